@@ -12,6 +12,17 @@ std::string related_text(Rng& r, const std::string& base, const TextCfg& c);   /
 std::string query_string(Rng& r, int max_items);
 void query_items(Rng& r, Op& mk, int max_items, int max_len);
 
+// component-wise description of a URI reference, for near-duplicates that differ in exactly one component
+struct UriParts {
+    bool has_scheme = false; std::string scheme;
+    bool has_auth = false, has_user = false, has_port = false; std::string user, host, port;
+    bool abs = false; std::vector<std::string> segs;
+    bool has_query = false, has_frag = false; std::string query, frag;
+    std::string render() const;
+};
+UriParts random_parts(Rng& r, const TextCfg& c);
+UriParts edit_one(Rng& r, const UriParts& p, std::string* what);   // change exactly one component
+
 struct HistCfg {
     int min_ops = 3, max_ops = 10;
     int nslots = 6;
